@@ -1,6 +1,7 @@
 import Chain33Model.Proofs.C06Prefix
 import Chain33Model.Proofs.C06Map
 import Chain33Model.Proofs.C06Iter
+import Chain33Model.Proofs.C06Badger
 /-!
 C06 — Key-value backends agree with an ordered-map model.  Property theorems only
 (helpers live in `Proofs/C06*.lean`).  The model (`Model/C06.lean`) is tied to
@@ -214,5 +215,43 @@ theorem badger_iter_full_false : ¬ BadgerIterFull := by
   have := h [([0x61], [1]), ([0x62], [2])] [0x61] none false (by decide)
   revert this
   decide
+
+/-- what the forward badger scan returns instead, for all inputs: the keys with
+`start ≤ key ≤ end` — the *inclusive* range (`itBase.checkKey` is its only upper check). -/
+theorem badger_iter_forward_inclusive {m : Map} (hs : Sorted m) (start : Bytes) (end_ : Option Bytes) :
+    (BIter.mk' m start end_ false).scan = m.filter (fun e => checkKey start (effEnd start end_) e.1) :=
+  BIter.scan_forward hs start end_
+
+/-- the statement that does hold for badger (forward): with the added hypothesis that the bound
+itself is not a key of the database, the scan is exactly the in-range entries in order. -/
+theorem badger_iter_forward_partial {m : Map} (hs : Sorted m) (start : Bytes) (end_ : Option Bytes)
+    (habsent : ∀ u, effEnd start end_ = some u → get m u = none) :
+    (BIter.mk' m start end_ false).scan = range m start (effEnd start end_) := by
+  rw [BIter.scan_forward hs]
+  unfold range
+  apply List.filter_congr
+  intro e he
+  cases hu : effEnd start end_ with
+  | none => simp [checkKey, inRange, belowUpper]
+  | some u =>
+    have hne : e.1 ≠ u := by
+      intro h
+      have := get_of_mem hs (show (e.1, e.2) ∈ m from he)
+      rw [h, habsent u hu] at this; cases this
+    simp only [checkKey, inRange, belowUpper]
+    congr 1
+    -- key ≤ u ∧ key ≠ u  ↔  key < u
+    cases hlt : blt e.1 u with
+    | true => exact ble_of_blt hlt
+    | false =>
+      cases hle : ble e.1 u with
+      | false => rfl
+      | true =>
+        rcases ble_iff.mp hle with h | h
+        · rw [h] at hlt; cases hlt
+        · exact absurd h hne
+
+example : (BIter.mk' [([0x61], [1]), ([0x63], [2])] [0x61] none false).scan = [([0x61], [1])]
+    ∧ get [([0x61], [1]), ([0x63], [2])] [0x62] = none := by decide
 
 end C06
